@@ -148,6 +148,10 @@ func c04Round(c *core.Ctx, round int) {
 	// anything initialised lazily is initialised under contention. twin is an identically configured engine
 	// that provides the single-threaded results.
 	e, twin := mkEngine(), mkEngine()
+	// a second pair of engines configured through Delims with empty strings (= defaults) and custom tag delimiters
+	ed, edTwin := mkEngine().Delims("", "", "<%", "%>"), mkEngine().Delims("", "", "<%", "%>")
+	edSrc := "a {{ n }} <% if t %>yes<%- else -%>no<% endif %> {{ s | upcase }}<% for i in arr %>{{ i }},<% endfor %>"
+	edWant := core.Run(edTwin, edSrc, nil)
 	// configuration phase is over; from here on the engine is only used
 	filters, tags, blocks := engineNames(e)
 	if len(filters) == 0 { // the tables could not be read by reflection (renamed fields): use the static lists
@@ -249,6 +253,14 @@ func c04Round(c *core.Ctx, round int) {
 					gr := core.NewRand(c.Seed, uint64(round), uint64(cfg.n), uint64(cfg.procs), uint64(rep), uint64(g))
 					local := make([]c04op, 0, 256)
 					<-start
+					if round%2 == 0 || g%2 == 0 { // the Delims-configured engine is first used here, by several goroutines at once
+						if got := core.Run(ed, edSrc, nil); !got.Same(edWant) {
+							opsMu.Lock()
+							c.Violate("concurrent-differs-from-sequential|custom-delims", "a concurrent parse+render on an engine configured with Delims returned something else than when run alone",
+								map[string]any{"source": edSrc, "sequential": edWant.Brief(), "concurrent": got.Brief()})
+							opsMu.Unlock()
+						}
+					}
 					// every goroutine walks the templates in the same rotation so that the same *Template overlaps itself
 					for k := 0; k < len(srcs); k++ {
 						i := (k + g/4) % len(srcs)
